@@ -26,7 +26,11 @@ ASSUMPTIONS = [
     "frames are presented as 8-byte CAN frames when padded (DLC 8), through decode_tcp; thorough also decode_usb / decode_yacht_devices_string",
 ]
 
-STREAMS = [(130816, 1, 255), (130816, 2, 255), (126720, 1, 5), (126720, 1, 6), (126720, 2, 5), (126720, 1, 255)]
+STREAMS = [(130816, 1, 255), (130816, 2, 255), (126720, 1, 5), (126720, 1, 6), (126720, 2, 5), (126720, 1, 255),
+           # interferers: other fast PGNs of the same identifier neighbourhood from the same sources. Their own results are not
+           # judged (their payloads match no definition), but they must not disturb the observed streams.
+           (130820, 1, 255), (130817, 1, 255), (130850, 2, 255), (126208, 1, 5), (126464, 1, 5)]
+OBSERVED = 6
 
 
 class Interp:
@@ -118,6 +122,14 @@ class Interp:
         completes = (not c["done"]) and k not in c["got"] and (c["got"] | {k}) == set(range(len(c["frames"])))
         c["got"].add(k)
         tag = "C04|" + self.fmt
+        if s >= OBSERVED:
+            if completes:
+                c["done"] = True
+            try:
+                self._send(s, data)
+            except Exception:
+                pass
+            return []
         try:
             r = self._send(s, data)
         except Exception as e:
@@ -177,9 +189,14 @@ def make_machine_factory(ctx: Ctx, fmt: str):
                 self.last_seq = {}
                 self.counted = False
 
-            @initialize(n=st.integers(2, 4))
-            def setup(self, n):
+            @initialize(n=st.integers(2, 4), interferers=st.booleans())
+            def setup(self, n, interferers):
                 self.n_streams = n
+                # stream indices in use: the first n observed ones, optionally all interferers
+                self.extra = list(range(OBSERVED, len(STREAMS))) if interferers else []
+
+            def _streams(self):
+                return list(range(self.n_streams)) + list(getattr(self, "extra", []))
 
             def _do(self, op):
                 res = self.it.step(op)
@@ -193,13 +210,18 @@ def make_machine_factory(ctx: Ctx, fmt: str):
                   padkind=st.sampled_from(["none", "none", "00", "ff", "rand"]))
             def start(self, data, s, big, padkind):
                 s %= self.n_streams
+                if self.extra and big % 3 == 1:
+                    s = self.extra[(s + big) % len(self.extra)]
                 pgn = STREAMS[s][0]
                 self.msg_no += 1
                 if big == 0:
                     L = data.draw(st.integers(61, 223), label="length")
                 else:
                     L = data.draw(st.one_of(st.integers(0, 60), st.sampled_from([0, 5, 6, 7, 8, 12, 13, 14, 15, 20, 21])), label="length")
-                payload = data.draw(fp.payload(pgn, L, L, tag=self.msg_no), label="payload")
+                if s >= OBSERVED:
+                    payload = bytes([0xE5, 0x98]) + bytes([self.msg_no & 0xFF]) * max(L - 2, 0) if L >= 2 else bytes(L)
+                else:
+                    payload = data.draw(fp.payload(pgn, L, L, tag=self.msg_no), label="payload")
                 prev = self.last_seq.get(s)
                 seq = data.draw(st.integers(0, 7).filter(lambda x: x != prev), label="seq")
                 self.last_seq[s] = seq
@@ -214,17 +236,17 @@ def make_machine_factory(ctx: Ctx, fmt: str):
                     return []
                 return [k for k in range(1, len(c["frames"])) if k not in c["got"] and k not in c["dropped"]]
 
-            @precondition(lambda self: any(self._pending(s) for s in range(self.n_streams)))
+            @precondition(lambda self: any(self._pending(s) for s in self._streams()))
             @rule(data=st.data())
             def deliver_next(self, data):
-                cands = [s for s in range(self.n_streams) if self._pending(s)]
+                cands = [s for s in self._streams() if self._pending(s)]
                 s = data.draw(st.sampled_from(cands), label="stream")
                 self._do({"op": "frame", "stream": s, "index": self._pending(s)[0], "how": "next"})
 
-            @precondition(lambda self: any(len(self._pending(s)) > 1 for s in range(self.n_streams)))
+            @precondition(lambda self: any(len(self._pending(s)) > 1 for s in self._streams()))
             @rule(data=st.data())
             def deliver_out_of_order(self, data):
-                cands = [s for s in range(self.n_streams) if len(self._pending(s)) > 1]
+                cands = [s for s in self._streams() if len(self._pending(s)) > 1]
                 s = data.draw(st.sampled_from(cands), label="stream")
                 k = data.draw(st.sampled_from(self._pending(s)[1:]), label="index")
                 self._do({"op": "frame", "stream": s, "index": k, "how": "ooo"})
@@ -235,18 +257,18 @@ def make_machine_factory(ctx: Ctx, fmt: str):
                     return []
                 return [k for k in c["got"] if k != 0]
 
-            @precondition(lambda self: any(self._dupable(s) for s in range(self.n_streams)))
+            @precondition(lambda self: any(self._dupable(s) for s in self._streams()))
             @rule(data=st.data())
             def duplicate(self, data):
-                cands = [s for s in range(self.n_streams) if self._dupable(s)]
+                cands = [s for s in self._streams() if self._dupable(s)]
                 s = data.draw(st.sampled_from(cands), label="stream")
                 k = data.draw(st.sampled_from(sorted(self._dupable(s))), label="index")
                 self._do({"op": "frame", "stream": s, "index": k, "how": "dup"})
 
-            @precondition(lambda self: any(self._pending(s) for s in range(self.n_streams)))
+            @precondition(lambda self: any(self._pending(s) for s in self._streams()))
             @rule(data=st.data())
             def drop(self, data):
-                cands = [s for s in range(self.n_streams) if self._pending(s)]
+                cands = [s for s in self._streams() if self._pending(s)]
                 s = data.draw(st.sampled_from(cands), label="stream")
                 k = data.draw(st.sampled_from(self._pending(s)), label="index")
                 self._do({"op": "drop", "stream": s, "index": k})
@@ -255,14 +277,14 @@ def make_machine_factory(ctx: Ctx, fmt: str):
                 c = self.it.cur.get(s)
                 return c is not None and c["done"] and len(c["frames"]) >= 2 and not c.get("sealed")
 
-            @precondition(lambda self: any(self._dupfirst_ok(s) for s in range(self.n_streams)))
+            @precondition(lambda self: any(self._dupfirst_ok(s) for s in self._streams()))
             @rule(data=st.data())
             def duplicate_first_frame_after_completion(self, data):
-                cands = [s for s in range(self.n_streams) if self._dupfirst_ok(s)]
+                cands = [s for s in self._streams() if self._dupfirst_ok(s)]
                 s = data.draw(st.sampled_from(cands), label="stream")
                 self._do({"op": "dupfirst", "stream": s})
 
-            @precondition(lambda self: any(self._pending(s) for s in range(self.n_streams)))
+            @precondition(lambda self: any(self._pending(s) for s in self._streams()))
             @rule(seconds=st.sampled_from([0.2, 1.0, 5.0, 120.0]))
             def time_passes(self, seconds):
                 self._do({"op": "warp", "stream": 0, "seconds": seconds})
@@ -271,10 +293,10 @@ def make_machine_factory(ctx: Ctx, fmt: str):
                 p, c = self.it.prev.get(s), self.it.cur.get(s)
                 return p is not None and c is not None and len(p["frames"]) > 1 and not c.get("sealed")
 
-            @precondition(lambda self: any(self._stale_ok(s) for s in range(self.n_streams)))
+            @precondition(lambda self: any(self._stale_ok(s) for s in self._streams()))
             @rule(data=st.data())
             def stale_frame(self, data):
-                cands = [s for s in range(self.n_streams) if self._stale_ok(s)]
+                cands = [s for s in self._streams() if self._stale_ok(s)]
                 s = data.draw(st.sampled_from(cands), label="stream")
                 k = data.draw(st.integers(1, len(self.it.prev[s]["frames"]) - 1), label="index")
                 self._do({"op": "stale", "stream": s, "index": k})
